@@ -9,6 +9,8 @@ package unpackinfo
 //@   opt propagate-errors
 //@   tolerates os.Lstat#1: isNotExist(_err)
 //@   sets $rejected = $rejected || err != nil
+//@   sets $kind = ite(err == nil, header.Typeflag, -1)
+//@   sets $ndirs = ite(err == nil && header.Typeflag == tar.TypeDir, $ndirs + 1, $ndirs)
 //@   sweep
 //@   pure
 //@   replay unpackEntry: dst=dst, name=header.Name, typeflag=header.Typeflag
@@ -37,3 +39,6 @@ package unpackinfo
 //@   sweep
 //@   fswrite i.Path
 //@   frame C01.frame: _p == i.Path
+//@   sets $restored = $restored || err == nil
+//@   at-call os.Chmod C15.restore.mode: a0 == i.Path && a1 == i.OriginalMode
+//@   at-call os.Chtimes C15.restore.times: a0 == i.Path && a1 == i.OriginalAccessTime && a2 == i.OriginalModTime
